@@ -1,4 +1,5 @@
 import PysphVerif.Lemmas.SolverLoop
+import PysphVerif.Lemmas.SolverLoopTerm
 /-!
 # C10 — the solver loop reaches `tf` exactly and honours the output schedule
 
@@ -621,5 +622,214 @@ theorem dump_at_requested_time (c : Cfg α) (dt0 : α) (G : Good c dt0) (T : α)
     have : (init c dt0).t = 0 := rfl
     rw [this, sub_zero, abs_of_nonneg h0]
     linarith [not_lt.mp hb]
+
+/-! ## termination -/
+
+/-- **The loop reaches `tf` — it is never `max_steps` that stops it** — for
+every adaptive sequence bounded below: if every step the integrator proposes
+and the configured step are ≥ `umin > 0`, the damping factors lie in
+`[fmin, 1]` and do not decrease, `tf ≤ N·umin·fmin`, and `max_steps` leaves
+room for `N` full steps plus one landing per requested time, then `solve`
+ends with `tf - ε ≤ t ≤ tf` after at most `N + len(output_at_times)` steps. -/
+theorem terminates (c : Cfg α) (dt0 : α) (G : Good c dt0) (umin fmin : α)
+    (L : Lower c dt0 umin fmin) (N : Nat) (hN : c.tf ≤ N * (umin * fmin))
+    (hmax : N + c.outT.length ≤ c.maxSteps) :
+    (solve c dt0).1.t ≤ c.tf ∧ c.tf - (solve c dt0).1.t ≤ (solve c dt0).1.eps ∧
+    (solve c dt0).1.count ≤ N + c.outT.length := by
+  have hc : (start c dt0).count = 0 := by
+    unfold start
+    rw [(landOn_t _ _).2.2.1, (getTimestep_fields c _).2.2]; rfl
+  have ht : (start c dt0).t = 0 := by
+    unfold start
+    rw [(landOn_t _ _).1, (getTimestep_fields c _).1]; rfl
+  have ha := ahead_le_length c.outT (start c dt0).t
+  obtain ⟨h1, h2⟩ := loop_terminates c dt0 umin fmin G L (N + c.outT.length) c.maxSteps
+    (start c dt0) N (inv_start c dt0 G) (inv2_start c dt0 umin fmin G L)
+    (by rw [ht, sub_zero]; exact hN) (by omega) hmax (by rw [hc]; omega)
+  have I : Inv c (solve c dt0).1 :=
+    loop_final c (Inv c) (fun s I hg => inv_iterSt c dt0 G s I (guard_running c s hg).1)
+      _ _ (inv_start c dt0 G)
+  refine ⟨I.t_le_tf, ?_, ?_⟩
+  · unfold Running at h1; exact not_lt.mp h1
+  · rw [hc] at h2
+    show (loop c c.maxSteps (start c dt0)).1.count ≤ _
+    omega
+
+/-! ## the recorded step size, exactly -/
+
+private theorem dump_event2 (c : Cfg α) (dt0 umin fmin : α) (G : Good c dt0)
+    (L : Lower c dt0 umin fmin) (s : St α) (h : Ev.dump s ∈ (solve c dt0).2) :
+    s = init c dt0 ∨ (Inv c s ∧ Inv2 c dt0 umin s) := by
+  have hstep : ∀ s, Inv c s ∧ Inv2 c dt0 umin s → SolverLoop.guard c s = true →
+      Inv c (iterSt c s) ∧ Inv2 c dt0 umin (iterSt c s) := by
+    intro s ⟨I, J⟩ hg
+    have hr := (guard_running c s hg).1
+    exact ⟨inv_iterSt c dt0 G s I hr, inv2_iterSt c dt0 umin fmin G L s I J hr⟩
+  have h0 : Inv c (start c dt0) ∧ Inv2 c dt0 umin (start c dt0) :=
+    ⟨inv_start c dt0 G, inv2_start c dt0 umin fmin G L⟩
+  rcases mem_solve c dt0 _ h with h | h | h
+  · left; cases h; rfl
+  · right
+    refine loop_events c (fun s => Inv c s ∧ Inv2 c dt0 umin s)
+      (fun e => ∀ s, e = Ev.dump s → Inv c s ∧ Inv2 c dt0 umin s) hstep ?_ _ _ h0 _ h s rfl
+    intro s' IJ hg e he s'' hs
+    subst hs
+    rcases mem_iterEv c s' _ he with h | h | h | h
+    · cases h
+    · cases h
+    · cases h
+    · cases h; exact hstep s' IJ hg
+  · right; cases h
+    exact loop_final c (fun s => Inv c s ∧ Inv2 c dt0 umin s) hstep _ _ h0
+
+/-- **Fixed-step mode: every dump records exactly the configured `dt`**
+(while the run is short of `tf` and not on the step that lands on `tf`), no
+matter how many steps were shortened to land on requested times and whatever
+the damping. -/
+theorem recorded_dt_fixed_mode (c : Cfg α) (dt0 umin fmin : α) (G : Good c dt0)
+    (L : Lower c dt0 umin fmin) (hfix : c.adaptive = false) (s : St α)
+    (h : Ev.dump s ∈ (solve c dt0).2) (hr : Running c s) (hl : s.landed = false) :
+    solverData s = dt0 := by
+  rcases dump_event2 c dt0 umin fmin G L s h with rfl | ⟨I, J⟩
+  · simp [solverData, undamped, init]
+  · rw [solverData_eq, J.fixed_saved hfix hr hl, mul_div_assoc,
+      div_self (ne_of_gt I.damp_pos), mul_one]
+
+/-- **Adaptive mode: every dump records exactly the step the integrator last
+proposed** (its `calls`-th answer), undamped and unaffected by shortening. -/
+theorem recorded_dt_adaptive_mode (c : Cfg α) (dt0 umin fmin : α) (G : Good c dt0)
+    (L : Lower c dt0 umin fmin) (had : c.adaptive = true) (s : St α)
+    (h : Ev.dump s ∈ (solve c dt0).2) (hr : Running c s) (hl : s.landed = false)
+    (v : α) (hcalls : 1 ≤ s.calls) (hv : c.adapt (s.calls - 1) = some v) :
+    solverData s = v := by
+  rcases dump_event2 c dt0 umin fmin G L s h with rfl | ⟨I, J⟩
+  · simp [init] at hcalls
+  · rw [solverData_eq, (J.adapt_saved had hr hl).2 v hv, mul_div_assoc,
+      div_self (ne_of_gt I.damp_pos), mul_one]
+
+/-! ## non-vacuity: a concrete run meeting the hypotheses (over ℚ) -/
+
+/-- adaptive (the integrator declines every third call), damped for two
+iterations, three requested times of which two coincide -/
+def exC : Cfg ℚ :=
+  { tf := 1, EPS := 1/1000, pfreq := 2, outT := [3/10, 7/20, 7/20], nDamp := 2, maxSteps := 100,
+    adaptive := true, dampFac := fun k => if k = 0 then 1/2 else 1,
+    adapt := fun k => if k % 3 = 2 then none else some (1/4), cast := fun n => (n : ℚ) }
+
+example : Good exC (1/5) := by
+  refine ⟨by norm_num [exC], by norm_num [exC], fun n => Nat.cast_nonneg n, ?_, ?_, by norm_num, ?_⟩
+  · intro k; simp only [exC]; split <;> norm_num
+  · intro k v h
+    simp only [exC] at h
+    split at h
+    · cases h
+    · cases h; norm_num
+  · simp [exC]; norm_num
+
+example : (stepsOf (solve exC (1/5)).2).map (fun s => (s.t, s.dt)) =
+    [(0, 1/8), (1/8, 7/40), (3/10, 1/20), (7/20, 1/4), (3/5, 1/4), (17/20, 3/20)] := by
+  decide +kernel
+
+example : (solve exC (1/5)).1.t = 1 ∧ (solve exC (1/5)).1.count = 6 ∧
+    (solve exC (1/5)).1.count < exC.maxSteps := by decide +kernel
+
+/-- its dumps: start; on the requested times 3/10 (also a pfreq dump) and 7/20;
+iteration 4; the end.  The recorded dt is the adaptive 1/4 even where the
+next step was shortened (1/20 at t = 3/10). -/
+example : (solve exC (1/5)).2.filterMap
+      (fun e => match e with | Ev.dump s => some (s.t, s.count, solverData s) | _ => none) =
+    [(0, 0, 1/5), (3/10, 2, 1/4), (7/20, 3, 1/4), (3/5, 4, 1/4), (1, 6, 3/20)] := by
+  decide +kernel
+
+/-- the hypotheses of `terminates` are met by the same run (`umin = 1/5`,
+`fmin = 1/2`, `N = 10`): it ends at `tf` after 6 ≤ 10 + 3 steps -/
+example : Lower exC (1/5) (1/5) (1/2) ∧ exC.tf ≤ (10 : Nat) * ((1/5 : ℚ) * (1/2)) ∧
+    10 + exC.outT.length ≤ exC.maxSteps := by
+  refine ⟨⟨by norm_num, by norm_num, by norm_num, le_refl _, ?_, ?_, ?_, ?_⟩,
+    by norm_num [exC], by simp [exC]⟩
+  · intro k v h
+    simp only [exC] at h
+    split at h
+    · cases h
+    · cases h; norm_num
+  · intro k; simp only [exC]; split <;> norm_num
+  · intro k; simp only [exC]; split <;> norm_num
+  · intro k; simp only [exC]; split <;> norm_num
+
+/-! ## the code before the fix violates the property, in exact arithmetic too
+
+`Pinned.solve` transcribes the pinned `solve`/`_get_timestep`/
+`_dump_output_if_needed` (validated bit for bit against the pinned code).
+Each of the three statements exhibits a configuration meeting every hypothesis
+of the theorems above on which the pinned loop breaks the corresponding clause. -/
+
+/-- the states `dump_output` saw, in order -/
+def dumpsOf : List (Ev α) → List (St α)
+  | [] => []
+  | Ev.dump s :: rest => s :: dumpsOf rest
+  | _ :: rest => dumpsOf rest
+
+/-- dt = 1/10, tf = 1, ε = tf/1000 per iteration, no damping, fixed step -/
+def pinnedBase : Cfg ℚ :=
+  { tf := 1, EPS := 1/1000, pfreq := 1, outT := [], nDamp := 0, maxSteps := 100, adaptive := false,
+    dampFac := fun _ => 1, adapt := fun _ => none, cast := fun n => (n : ℚ) }
+
+/-- a requested time inside the first step -/
+def pinnedC1 : Cfg ℚ := { pinnedBase with outT := [1/20] }
+/-- two requested times within ε ahead of the step time 3/10 and a third at 7/20 -/
+def pinnedC2 : Cfg ℚ := { pinnedBase with outT := [301/1000, 302/1000, 7/20] }
+/-- three damped iterations and a requested time ε/2 short of the end of the second step -/
+def pinnedC3 : Cfg ℚ :=
+  { pinnedBase with nDamp := 3, dampFac := fun k => if k = 0 then 1/4 else if k = 1 then 1/2 else 3/4,
+                    outT := [1/40 + 1/20 - 1/2000] }
+
+private theorem good_of (c : Cfg ℚ) (h1 : c.EPS = 1/1000) (h2 : c.tf = 1)
+    (h3 : c.cast = fun n : Nat => (n : ℚ)) (h4 : ∀ k, 0 < c.dampFac k)
+    (h5 : c.adapt = fun _ => none) (h6 : c.outT.Pairwise (· ≤ ·)) : Good c (1/10) := by
+  refine ⟨?_, ?_, ?_, h4, ?_, by norm_num, h6⟩
+  · rw [h1]; norm_num
+  · rw [h2]; norm_num
+  · intro n; rw [h3]; exact Nat.cast_nonneg n
+  · intro k v h; rw [h5] at h; cases h
+
+/-- **Defect 2 (first step).**  The pinned loop steps from 0 to 1/10 over the
+requested time 1/20: `never_past_requested_time` fails for it. -/
+theorem pinned_first_step_counterexample :
+    Good pinnedC1 (1/10) ∧
+    ∃ s ∈ stepsOf (Pinned.solve pinnedC1 (1/10)).2, ∃ T ∈ pinnedC1.outT,
+      s.eps < T - s.t ∧ T < s.t + s.dt := by
+  refine ⟨good_of _ rfl rfl rfl (fun _ => by simp [pinnedC1, pinnedBase]) rfl
+    (by simp [pinnedC1, pinnedBase]), ?_⟩
+  decide +kernel
+
+/-- **Defect 3 (cluster).**  With two requested times within ε ahead of the
+current time the pinned loop steps over a third one closer than `dt`. -/
+theorem pinned_cluster_counterexample :
+    Good pinnedC2 (1/10) ∧
+    ∃ s ∈ stepsOf (Pinned.solve pinnedC2 (1/10)).2, ∃ T ∈ pinnedC2.outT,
+      s.eps < T - s.t ∧ T < s.t + s.dt := by
+  refine ⟨good_of _ rfl rfl rfl (fun _ => by simp [pinnedC2, pinnedBase]) rfl
+    (by simp [pinnedC2, pinnedBase]; norm_num), ?_⟩
+  decide +kernel
+
+/-- **Defect 1 (stale `_prev_dt`).**  Fixed step 1/10 with three damped
+iterations and a requested time ε/2 short of a step end: from then on every
+pinned dump records 1/15 (and the undamped steps ARE 1/15), where
+`recorded_dt_fixed_mode` proves 1/10 for the repaired loop. -/
+theorem pinned_stale_prev_dt_counterexample :
+    Good pinnedC3 (1/10) ∧ Lower pinnedC3 (1/10) (1/10) (1/4) ∧ pinnedC3.adaptive = false ∧
+    (∃ s ∈ dumpsOf (Pinned.solve pinnedC3 (1/10)).2, s.eps < pinnedC3.tf - s.t ∧
+      s.landed = false ∧ solverData s = 1/15) ∧
+    (∃ s ∈ stepsOf (Pinned.solve pinnedC3 (1/10)).2, s.damp = 1 ∧ s.landed = false ∧ s.dt = 1/15) := by
+  have hd : ∀ k : Nat, (0:ℚ) < (if k = 0 then 1/4 else if k = 1 then 1/2 else 3/4) := by
+    intro k; split_ifs <;> norm_num
+  refine ⟨good_of _ rfl rfl rfl hd rfl (by simp [pinnedC3, pinnedBase]), ?_, rfl, ?_, ?_⟩
+  · refine ⟨by norm_num, by norm_num, by norm_num, le_refl _, ?_, ?_, ?_, ?_⟩
+    · intro k v h; cases h
+    · intro k; simp only [pinnedC3]; split_ifs <;> norm_num
+    · intro k; simp only [pinnedC3]; split_ifs <;> norm_num
+    · intro k; simp only [pinnedC3]; split_ifs <;> first | contradiction | omega | norm_num
+  · decide +kernel
+  · decide +kernel
 
 end PysphVerif.C10
